@@ -11,6 +11,8 @@ B == N("cmake", FALSE, FALSE, TRUE, "", 4)
 da == N("a", FALSE, FALSE, FALSE, "", 2)
 db == N("b", FALSE, FALSE, FALSE, "", 3)
 dout == N("out", FALSE, FALSE, FALSE, "", 7)
+dl == N("lnk", FALSE, FALSE, FALSE, "", 6)                 \* a symbolic link to a directory outside the input tree
+MCLinkNames == {"lnk"}
 dab == N("ab", FALSE, FALSE, FALSE, "", 2)                 \* sibling of "a" whose name begins like it
 L1 == N("l1.cmake", TRUE, TRUE, TRUE, "l1", 6)             \* written with a Latin-1 byte: not UTF-8
 XY == N("x-y.cmake", TRUE, TRUE, TRUE, "x-y", 7)             \* sorts before x.cmake ('-' < '.')
@@ -32,7 +34,8 @@ Leaves == {Leaf(f) : f \in LeafFiles}
 Mids == Leaves \cup {Mk(f, (db :> l)) : f \in {{}, {X}, {T}}, l \in {Leaf({X}), Leaf({}), Leaf({Y, X})}}
               \cup {Mk({X}, (da :> Leaf({Z})) @@ (db :> Leaf({X})))}
 RootFiles == {{X}, {X, Z, T}, {X, Y, B}, {X, XY}, {X, XD}}
-MCTrees == {Mk(f, NoCh) : f \in RootFiles}
+MCTrees == {Mk({X}, (dl :> Leaf({X, Z})) @@ (da :> Leaf({X}))), Mk({X}, (da :> Mk({X}, (dl :> Mk({X}, (db :> Leaf({X}))))))), Mk({X}, (dl :> Leaf({T})))}
+           \cup {Mk(f, NoCh) : f \in RootFiles}
            \cup {Mk(f, (da :> m)) : f \in RootFiles, m \in Mids}
            \cup {Mk(f, (da :> m) @@ (db :> l)) : f \in {{X}, {X, Z, T}}, m \in Mids, l \in {Leaf({X}), Leaf({T}), Leaf({Z, Y})}}
 SmallTrees == {Mk(f, NoCh) : f \in RootFiles}
@@ -40,7 +43,9 @@ SmallTrees == {Mk(f, NoCh) : f \in RootFiles}
            \cup {Mk({X, T}, (da :> Leaf({Y})) @@ (db :> Leaf({X})))}
            \cup {Mk({X, L1}, (da :> Leaf({X})))}
            \cup {Mk({X, XD}, (da :> Leaf({DE, B})))}
-           \cup {Mk({X}, (da :> Mk({HD}, (db :> Leaf({X})))))}       \* a directory whose only CMake file is hidden, with a sub-directory                \* names with several dots, at the top and below
+           \cup {Mk({X}, (da :> Mk({HD}, (db :> Leaf({X})))))}
+           \* linked directories: next to a real one, and below one; with CMake files and without
+           \cup {Mk({X}, (dl :> Leaf({X, Z})) @@ (da :> Leaf({X}))), Mk({X}, (da :> Mk({X}, (dl :> Mk({X}, (db :> Leaf({X}))))))), Mk({X}, (dl :> Leaf({T})))}       \* a directory whose only CMake file is hidden, with a sub-directory                \* names with several dots, at the top and below
            \cup {Mk({X}, (dout :> Leaf({T})) @@ (db :> Leaf({X})) @@ (da :> Leaf({Z})))}     \* the output directory exists already
            \cup {Mk({X, XY}, (da :> Leaf({X})) @@ (dab :> Mk({Z}, (db :> Leaf({X})))))}
            \cup {Mk({X, Z, T}, (da :> m) @@ (db :> l)) : m \in {Leaf({X}), Leaf({T}), Mk({X}, (db :> Leaf({X}))), Mk({}, (db :> Leaf({X})))},
@@ -60,6 +65,7 @@ SmallPatternSets == WholeInput \cup { {}, {P("*.CMAKE", {"Y.CMAKE"}, FALSE)}, {P
 MCOutSub == [top |-> <<dout>>, sub |-> <<da, dout>>]
 NoDev == {}
 CurrentDev == {}
+BeforeF17 == {"D_LinkedDirsListed"}
 BothB == {TRUE, FALSE}
 Seps == {".", "::"}
 SepColon == {"::"}
